@@ -14,7 +14,7 @@ COQ_DIR = 'C19'
 COQ_HEADER = 'From V Require Import Common.Num C19.Model.\nOpen Scope nat_scope.'
 RULE = ('flowsheets of real thermosteam.network.AbstractUnit subclasses joined by AbstractStreams: connected acyclic graphs of '
         '2-10 units with 1-3 inlets/outlets each (random relabelling of a topological order, several feeds and products, '
-        'occasional parallel streams), and the same with 1-3 added back-edges such that every unit is still fed and still '
+        'occasional parallel streams), and the same with 1-3 added back-edges (occasionally a unit feeding itself) such that every unit is still fed and still '
         'reaches a product. kind=net: Network.from_units on a random permutation of the unit list (all permutations of one '
         'flowsheet for n<=4 quick / n<=6 thorough); the observed nested path, recycles and a cycle witness are checked by the '
         'verified Gallina checker, and flat path / get_all_recycles are compared with the Gallina functions. kind=sort: '
@@ -31,9 +31,6 @@ TRUSTED = ['model coq/C19/Model.v (split_first/sweep/sort_loop, dloop) is hand-w
            'encoding of the observed Network tree and of the flowsheet graph into Gallina (props/C19.py: ctree, cedges)',
            'cycle witness search and acyclicity test in the harness are untrusted: the checker validates the witness and '
            'derives acyclicity itself']
-
-# keys of findings that are listed in known_findings.txt; cases hitting them must be *rejected* by the checker
-KNOWN_KEYS = set()
 
 _env = {}
 def env():
@@ -185,6 +182,7 @@ def add_back_edges(rng, case, k):
         cands = [(u, v) for v in range(n) for u in sorted(closure(sm, v)) if u != v]
         if not cands: break
         u, v = rng.choice(cands)
+        if rng.random() < 0.08: v = u      # a unit that feeds itself
         out_sid, in_sid, src, dst = stream_table(case)
         trial = {**case, 'nin': list(case['nin']), 'nout': list(case['nout']), 'edges': [list(e) for e in case['edges']]}
         free_out = [op for op in range(case['nout'][u]) if dst[out_sid[u][op]] is None]
@@ -250,6 +248,8 @@ def gen_cases(rng, tier):
         path = list(range(n)); rng.shuffle(path)
         if rng.random() < 0.15 and n > 2:
             path = path[:rng.randint(2, n - 1)]
+        elif rng.random() < 0.06:
+            path.insert(rng.randrange(len(path) + 1), rng.choice(path))   # malformed: a unit listed twice
         cases.append({'kind': 'sort', **fs, 'path': path, 'ends': sorted(ends)})
     return cases
 
@@ -349,11 +349,6 @@ def coq_case(case, out):
     term = (f'(check {nl(case["order"])} {cedges(case)} {t} {nl(find_cycle(case))} '
             f'&& list_eqb Nat.eqb (flat {t}) {nl(flat(out["tree"]))} '
             f'&& set_eqb (all_recycles {t}) {nl(out["all_recycles"])})')
-    if KNOWN_KEYS:
-        msg = verdict(case, out)
-        if msg and finding_key(case, msg) in KNOWN_KEYS:
-            # instance of a listed finding: the verified checker must reject it
-            return f'(negb (check {nl(case["order"])} {cedges(case)} {t} {nl(find_cycle(case))}))'
     return term
 
 def coq_show(case, out):
@@ -376,7 +371,9 @@ def classify(case, out):
         ks.append('sort:' + ('moved' if out.get('path') != case['path'] else 'already-ordered'))
         if out.get('recycle'): ks.append('sort:recycle-added')
         if out.get('stop') is False: ks.append('sort:warned')
-        if len(case['path']) < case['n']: ks.append('sort:sub-path')
+        if len(set(case['path'])) < case['n']: ks.append('sort:sub-path')
+        if len(set(case['path'])) < len(case['path']): ks.append('sort:unit-listed-twice')
+        if any(u == v for s, u, v in process_edges(case)): ks.append('graph:self-loop')
     else:
         if 'raised' in out:
             ks.append('net:raised')
@@ -385,6 +382,7 @@ def classify(case, out):
             ks.append(f'net:depth{depth(out["tree"])}')
             ks.append(f'net:recycles{min(len(out["all_recycles"]), 4)}')
             if out.get('warned'): ks.append('net:warned')
+        if any(u == v for s, u, v in process_edges(case)): ks.append('graph:self-loop')
         out_sid, in_sid, src, dst = stream_table(case)
         ks.append(f'feeds:{min(sum(1 for s in src if src[s] is None), 4)}')
         ks.append(f'products:{min(sum(1 for s in src if dst[s] is None), 4)}')
